@@ -1,6 +1,119 @@
 (* C05Proofs.v — lemmas for C05 (documents are faithful persistent dicts; buffering transparent). *)
 From SV Require Import Base Json Canon Doc CorrC05.
 
-Lemma merge_null_container_example :
-  merge (JObj [([99%N], JObj [])]) (JObj [([99%N], JNull)]) = JObj [([99%N], JObj [])].
-Proof. reflexivity. Qed.
+(* ------------------------------------------------------------------ association lists keyed by N *)
+Section NA.
+  Context {A : Type}.
+  Lemma nlookup_nset_same : forall k (v : A) l, nlookup k (nset k v l) = Some v.
+  Proof.
+    induction l as [|[k' v'] l IH]; simpl.
+    - rewrite N.eqb_refl. reflexivity.
+    - destruct (N.eqb k k') eqn:E; simpl; rewrite E; auto.
+  Qed.
+  Lemma nlookup_nset_other : forall k k' (v : A) l, k <> k' -> nlookup k' (nset k v l) = nlookup k' l.
+  Proof.
+    induction l as [|[k2 v2] l IH]; simpl; intro Hne.
+    - assert (E : N.eqb k' k = false) by (apply N.eqb_neq; auto). rewrite E. reflexivity.
+    - destruct (N.eqb k k2) eqn:E; simpl.
+      + apply N.eqb_eq in E. subst k2. assert (E2 : N.eqb k' k = false) by (apply N.eqb_neq; auto). rewrite E2. reflexivity.
+      + destruct (N.eqb k' k2); auto.
+  Qed.
+  Lemma nlookup_nremove_same : forall k (l : list (N * A)), nlookup k (nremove k l) = None.
+  Proof.
+    induction l as [|[k' v'] l IH]; simpl; auto.
+    destruct (N.eqb k k') eqn:E; simpl; auto. rewrite E. auto.
+  Qed.
+  Lemma nlookup_nremove_other : forall k k' (l : list (N * A)), k <> k' -> nlookup k' (nremove k l) = nlookup k' l.
+  Proof.
+    induction l as [|[k2 v2] l IH]; simpl; intro Hne; auto.
+    destruct (N.eqb k k2) eqn:E; simpl.
+    - apply N.eqb_eq in E. subst k2. assert (E2 : N.eqb k' k = false) by (apply N.eqb_neq; auto). rewrite E2. auto.
+    - destruct (N.eqb k' k2); auto.
+  Qed.
+End NA.
+
+Ltac nsimp :=
+  repeat first
+    [ rewrite nlookup_nset_same
+    | rewrite nlookup_nremove_same
+    | rewrite nlookup_nset_other by (auto; congruence)
+    | rewrite nlookup_nremove_other by (auto; congruence) ].
+
+Ltac nsimp_in H :=
+  repeat first
+    [ rewrite nlookup_nset_same in H
+    | rewrite nlookup_nremove_same in H
+    | rewrite nlookup_nset_other in H by (auto; congruence)
+    | rewrite nlookup_nremove_other in H by (auto; congruence) ].
+
+(* ------------------------------------------------------------------ merge *)
+Lemma json_eqb_refl : forall a, json_eqb a a = true.
+Proof. intro a. apply json_eqb_eq. reflexivity. Qed.
+
+Lemma merge_same : forall m, merge m m = m.
+Proof. intro m. unfold merge. rewrite json_eqb_refl. reflexivity. Qed.
+
+Definition is_obj (v : json) : Prop := exists kvs, v = JObj kvs.
+
+Lemma merge_obj_obj : forall a b, is_obj a -> is_obj b -> is_obj (merge a b).
+Proof.
+  intros a b [o ->] [n ->]. unfold merge. destruct (json_eqb (JObj o) (JObj n)); [eexists; reflexivity|].
+  simpl. destruct (_ && _); eexists; reflexivity.
+Qed.
+
+Lemma filter_all : forall A (f : A -> bool) l, (forall x, In x l -> f x = true) -> filter f l = l.
+Proof.
+  induction l as [|x l IH]; simpl; intro H; auto. rewrite (H x) by auto. f_equal. apply IH. auto.
+Qed.
+
+(* a collection that holds nothing takes over whatever the file holds *)
+Lemma merge_empty : forall n, merge empty_obj (JObj n) = JObj n.
+Proof.
+  intro n. unfold merge, empty_obj. destruct (json_eqb (JObj []) (JObj n)) eqn:E.
+  - apply json_eqb_eq in E. exact E.
+  - simpl. destruct n as [|kv n]; [reflexivity|]. simpl. f_equal.
+    apply (filter_all _ (fun kv0 => negb (amem (fst kv0) [])) (kv :: n)). intros x _. reflexivity.
+Qed.
+
+(* ------------------------------------------------------------------ the simulation invariant *)
+(* in sync with the file: loading would change nothing; a collection whose file does not exist is empty *)
+Definition insync (m : json) (fo : option json) : Prop :=
+  match fo with
+  | None => m = empty_obj
+  | Some v => merge m v = v /\ is_obj v
+  end.
+
+Definition fileB (B : cstate) f := nlookup f (files B).
+
+Definition hinv (B U : cstate) (f : N) (m : json) : Prop :=
+  is_obj m /\
+  match nlookup f (buf B) with
+  | None =>
+      (nlookup f (files B) = nlookup f (files U) /\ insync m (nlookup f (files U)))
+      \/ (nlookup f (files B) = None /\ nlookup f (files U) = Some m /\ m = empty_obj)
+  | Some e =>
+      b_contents e = m /\
+      ((nlookup f (files B) = None /\ (b_hash e = JNull \/ b_hash e = empty_obj))
+       \/ nlookup f (files B) = Some (b_hash e)) /\
+      ((b_hash e = m /\ (nlookup f (files U) = Some m
+                         \/ (nlookup f (files U) = None /\ nlookup f (files B) = None)))
+       \/ nlookup f (files U) = Some m)
+  end.
+
+Record Inv0 (B U : cstate) : Prop := {
+  i_depthU : depth U = 0%nat;
+  i_mems : forall h, nlookup h (mems B) = nlookup h (mems U);
+  i_inj : forall h h' f m m', nlookup h (mems B) = Some (f, m) -> nlookup h' (mems B) = Some (f, m') -> h = h';
+  i_h : forall h f m, nlookup h (mems B) = Some (f, m) -> hinv B U f m;
+  i_free : forall f, (forall h m, nlookup h (mems B) <> Some (f, m)) -> nlookup f (files B) = nlookup f (files U);
+  i_reg : forall f e, nlookup f (buf B) = Some e -> exists h m, In h (reg B) /\ nlookup h (mems B) = Some (f, m)
+}.
+
+Definition Inv (B U : cstate) : Prop :=
+  Inv0 B U /\ (depth B = 0%nat -> forall f, nlookup f (buf B) = None).
+
+(* hinv only looks at the file f in files/buf *)
+Lemma hinv_frame : forall B U B' U' f m,
+  nlookup f (buf B') = nlookup f (buf B) -> nlookup f (files B') = nlookup f (files B) ->
+  nlookup f (files U') = nlookup f (files U) -> hinv B U f m -> hinv B' U' f m.
+Proof. intros B U B' U' f m H1 H2 H3 H. unfold hinv in *. rewrite H1, H2, H3. exact H. Qed.
